@@ -25,7 +25,8 @@ class JavacServer:
             raise RuntimeError('build/CompileServer.class missing: run ./setup.sh')
         self.p = subprocess.Popen(['java', '-Xss16m', '-XX:+UseSerialGC', '-XX:TieredStopAtLevel=1', '-cp', cls,
                                    'CompileServer', self.dir],
-                                  stdin=subprocess.PIPE, stdout=subprocess.PIPE, stderr=subprocess.DEVNULL)
+                                  stdin=subprocess.PIPE, stdout=subprocess.PIPE, stderr=subprocess.DEVNULL,
+                                  cwd=self.dir)  # javac drops javac.<date>.args files into its cwd when it crashes
         self.n = 0
 
     def close(self):
